@@ -438,6 +438,20 @@ def _corpus_families(big):
         out.append({"factors": [wc2, sz2, loud], "block": {"k": "cross", "design": [0, 1, 2], "crossing": [0, 1], "rcc": False,
                     "cs": [{"k": "Exclude", "f": 2, "l": 0}] + extra}})
     out.mark()
+    # an implied within-trial factor over a Transition factor and a basic factor, in both argument orders: it starts
+    # when its latest dependency starts (trial 2), whichever is listed first
+    wa, wb = _sf(0, ["r", "g"]), _sf(1, ["x", "y"])
+    wt = _transition(2, 0, 2)
+    for deps in ([2, 1], [1, 2]):
+        hit = [0] * 9
+        for k in range(9):
+            a, b = k // 3, k % 3
+            tval = a if deps[0] == 2 else b
+            hit[k] = 1 if tval == 1 else 0          # "the transition factor has its first level"
+        ww = {"id": 3, "name": "f3", "window": {"deps": deps, "width": 1, "stride": 1, "start": None, "kind": "within"},
+              "levels": [{"name": "hit", "w": 1, "table": hit}, {"name": "miss", "w": 1, "table": [1 - x for x in hit]}]}
+        out.append({"factors": [wa, wb, wt, ww], "block": {"k": "cross", "design": [0, 1, 2, 3], "crossing": [0, 1], "rcc": True, "cs": []}})
+    out.mark()
     # a within-trial derived factor over another derived factor, both uncrossed but kept in the problem by a
     # constraint, listed in the design *before* the factor it depends on (fill-in order must follow dependencies)
     dc, dw, dz = _sf(0, ["r", "g"]), _sf(1, ["r", "g"]), _sf(2, ["big", "small"])
